@@ -203,6 +203,22 @@ theorem unwind_errors (g : Cfg) (hsz : 1 ≤ g.addressSize ∧ g.addressSize ≤
     · exact Or.inr (Or.inr (Or.inr (Or.inl h1)))
     · exact Or.inr (Or.inr (Or.inr (Or.inr h1)))
 
+/-- **More storage never changes a table that fits**: if the unwind completes with capacities
+`(R, N)`, it also completes with any capacities at least as large (in particular with the growable
+`Vec` storage, `none`), and both row lists represent the same rows of the semantics. -/
+theorem storage_monotone (g : Cfg) (R' N' : Cap) (hsz : 1 ≤ g.addressSize ∧ g.addressSize ≤ 8)
+    (hR1 : g.R.fits 1) (hR : CapLe g.R R') (hN : CapLe g.N N')
+    (cie fde : List Instr) (cieBad fdeBad : Option Err) (initial len : Nat)
+    (hok : (unwind g cie (tailOf cieBad) fde (tailOf fdeBad) initial len).2 = .ok ()) :
+    (unwind { g with R := R', N := N' } cie (tailOf cieBad) fde (tailOf fdeBad) initial len).2 = .ok () ∧
+    ∃ rows : List TableRow,
+      RowsRel (unwind g cie (tailOf cieBad) fde (tailOf fdeBad) initial len).1 rows ∧
+      RowsRel (unwind { g with R := R', N := N' } cie (tailOf cieBad) fde (tailOf fdeBad) initial len).1 rows :=
+  storage_monotone_main g R' N' hsz hR1 hR hN cie fde cieBad fdeBad initial len hok
+
+example : CapLe (some 4) (some 8) := CapLe.some (by decide)
+example : CapLe (some 192) none := CapLe.none _
+
 /-! ### the Spec means what the standard says (sanity of the reference semantics) -/
 
 /-- `DW_CFA_remember_state` followed by `DW_CFA_restore_state` is the identity -/
